@@ -1461,8 +1461,23 @@ impl GRLParser {
     }
 
     fn parse_then_clause(&self, then_clause: &str) -> Result<Vec<ActionType>> {
-        let statements: Vec<&str> = then_clause
-            .split(';')
+        // Split on ';' outside string literals (a ';' inside a literal belongs to the value)
+        let mut statements: Vec<&str> = Vec::new();
+        let mut in_string = false;
+        let mut start = 0;
+        for (i, ch) in then_clause.char_indices() {
+            match ch {
+                '"' => in_string = !in_string,
+                ';' if !in_string => {
+                    statements.push(&then_clause[start..i]);
+                    start = i + 1;
+                }
+                _ => {}
+            }
+        }
+        statements.push(&then_clause[start..]);
+        let statements: Vec<&str> = statements
+            .into_iter()
             .map(|s| s.trim())
             .filter(|s| !s.is_empty())
             .collect();
